@@ -32,7 +32,7 @@ CHECKS = {
         "model-based stateful testing: Hypothesis RuleBasedStateMachine histories + exhaustive enumeration of short "
         "histories, each operation compared with the same operation in a fresh process-state (fork-server child), plus "
         "step invariants",
-        "Histories of build / evaluate-common / evaluate-group / set-config / model_description / rebuild over 8 formulas "
+        "Histories of build / evaluate-common / evaluate-group / set-config / model_description / rebuild over 11 formulas "
         "x 4 frames (one with unseen levels, one with the shape of the training frame) are executed in one process; every "
         "result must equal the result of that single operation in a pristine child, and after every step the training "
         "matrices of all live designs, every earlier result array, the caller's frames (values, dtypes, index, column "
@@ -170,10 +170,13 @@ CHECKS = {
     ),
     "C01": (
         "exhaustive enumeration of token sequences + Hypothesis grammar-generated sentences, near-miss mutations and "
-        "character-level strings; differential against an independent reference tokeniser and precedence-climbing "
-        "parser (vf/refparse.py) plus metamorphic relations (fully parenthesised form, whitespace / parenthesis variants)",
+        "character-level strings (+ a coverage-guided atheris campaign with the same oracle inside the target in the "
+        "thorough tier); differential against an independent reference tokeniser and precedence-climbing parser with "
+        "context conditions (vf/refparse.py) plus metamorphic relations (fully parenthesised form, whitespace / "
+        "parenthesis variants)",
         "Every string of up to 4 (quick) / 5 (thorough; 6 over a 14-symbol sub-alphabet) tokens over a 28-symbol alphabet "
-        "is classified by a reference grammar written from the statement (strict and loose reading of '~ lowest, then |'); "
+        "is classified by a reference grammar written from the statement (strict and loose reading of '~ lowest, then |'; "
+        "context conditions: one top-level '~', v[level] only as the whole response, no repeated keyword in a call); "
         "non-sentences must be rejected, an accepted sentence must have the reference tree (Grouping kept), the tokens the "
         "reference tokeniser finds, and the same model as its fully parenthesised form.  Hypothesis generates deep "
         "sentences of the term language and of arbitrary expression shape, renders them with drawn whitespace and "
